@@ -150,7 +150,7 @@ def strategies(prog, thorough):
       out.append((f'shards={m} threads={t}', dict(threads=t), ('sharded', m), False))
     if m > 1:
       for t in (0, 2):
-        out.append((f'shards={m} as explicit inputs threads={t}', dict(threads=t) if t else dict(), ('sharded-explicit', m), False))
+        out.append((f'shards={m}:explicit-inputs threads={t}', dict(threads=t) if t else dict(), ('sharded-explicit', m), False))
   return out
 
 
